@@ -232,7 +232,8 @@ class ExtraBytesStruct(ctypes.LittleEndianStructure):
 
     @property
     def offset(self) -> Optional[Any]:
-        if self.options & self.OFFSET_BIT_MASK != 0:
+        # for untyped extra bytes (data_type 0) options is the number of bytes
+        if self.data_type != 0 and self.options & self.OFFSET_BIT_MASK != 0:
             return self._offset
         return None
 
@@ -247,7 +248,7 @@ class ExtraBytesStruct(ctypes.LittleEndianStructure):
 
     @property
     def scale(self):
-        if self.options & self.SCALE_BIT_MASK != 0:
+        if self.data_type != 0 and self.options & self.SCALE_BIT_MASK != 0:
             return self._scale
         return None
 
